@@ -7,7 +7,8 @@
     (harness/instr profile "future"): the CAS on [closed]; the assignment of [err] / [message];
     [close(done)] (+ [timer.Stop], which has no scheduling point of its own); [closer()] (= [removeFuture]);
     [mu.Lock] + take and clear [forwarders] + [Unlock] in [close]; one [liaison.Tell] per forwarder;
-    in [PipeTo]: [mu.Lock], then [closed.Load] + the rest of the critical section, then (closed branch) the
+    in [PipeTo]: [mu.Lock], then [closed.Load] (+ open branch: the read of [forwarders], i.e. the evaluation of
+    append(f.forwarders, fs...)), then the write of [forwarders] (+ Unique) + [Unlock], resp. (closed branch) the
     receive on [done] + the read of the result; in [ask]: [NewFuture] (arms the timer), then [appendFuture],
     then [Closed()] (= closed.Load) + the conditional [removeFuture] + the send of the request + return.
 
@@ -58,6 +59,7 @@ Inductive pc : Type :=
 (* Future.PipeTo(forwarders) *)
 | PLock (fs : list N)
 | PLoad (fs : list N)
+| PAppend (fs raw : list N)           (* open branch: raw = append(f.forwarders, fs...) was read under mu; next: write + Unlock *)
 | PWaitDone (fs : list N)             (* closed branch: <-f.done, then read f.message / f.err *)
 | PTell (l : list N) (r : res)
 (* Result (full = true) / Wait (full = false) *)
@@ -92,11 +94,12 @@ Record st : Type := mkst {
   wlog : list (nat * bool);          (* writes of err/message: (thread, was done already closed?) *)
   fired : option N;                  (* time at which the timer callback ran *)
   closer_ran : bool;                 (* closer() = removeFuture has run *)
+  taken : bool;                      (* close has taken (and cleared) the forwarders *)
   thr : list pc                      (* thread i is at [nth i thr] *)
 }.
 #[export] Instance eta_st : Settable _ :=
   settable! mkst <now; tmo; armed; tstopped; closed; err; msg; done; fwd; mu; reg; sent; tells; rets; routed;
-                  created; winners; attempts; final; assigned; wlog; fired; closer_ran; thr>.
+                  created; winners; attempts; final; assigned; wlog; fired; closer_ran; taken; thr>.
 
 Fixpoint upd {A} (l : list A) (i : nat) (x : A) : list A :=
   match l, i with
@@ -126,7 +129,7 @@ Definition opt_eqb (a : option N) (b : N) : bool := match a with Some x => x =? 
 (** labels = what the instrumented Go code reports at the scheduling point in front of the step *)
 Inductive label : Type :=
 | LStart | LAwait | LNew | LAppend | LFire | LLookup | LDeath | LCas | LAssignErr | LAssignMsg | LCloseDone
-| LCloser | LLockClose | LTell | LLockPipe | LLoad | LRecv | LForeign | LCheck | LPipeWait | LNone.
+| LCloser | LLockClose | LTell | LLockPipe | LLoad | LRecv | LForeign | LCheck | LPipeWait | LAppendFwd | LNone.
 
 Definition label_of (p : pc) : label :=
   match p with
@@ -147,6 +150,7 @@ Definition label_of (p : pc) : label :=
   | CTell _ _ | PTell _ _ => LTell
   | PLock _ => LLockPipe
   | PLoad _ => LLoad
+  | PAppend _ _ => LAppendFwd
   | PWaitDone _ => LPipeWait
   | WRecv _ => LRecv
   | FReg _ _ | FUnreg _ => LForeign
@@ -199,7 +203,7 @@ Definition step (i : nat) (s : st) : option st :=
     | CLock v =>
         match mu s with
         | Some _ => None
-        | None => goto (s <| fwd := [] |>) (match fwd s with [] => Done | l => CTell l (msg s, err s) end)
+        | None => goto (s <| fwd := [] |> <| taken := true |>) (match fwd s with [] => Done | l => CTell l (msg s, err s) end)
         end
     | CTell l r =>
         match l with
@@ -214,7 +218,8 @@ Definition step (i : nat) (s : st) : option st :=
     | PLoad fs =>
         if closed s
         then goto (s <| mu := None |>) (PWaitDone fs)
-        else goto (s <| mu := None |> <| fwd := uniq [] (fwd s ++ fs) |>) Done
+        else goto s (PAppend fs (fwd s ++ fs))
+    | PAppend _ raw => goto (s <| mu := None |> <| fwd := uniq [] raw |>) Done
     | PWaitDone fs =>
         if done s then goto s (match fs with [] => Done | _ => PTell fs (msg s, err s) end) else None
     | PTell l r =>
@@ -264,7 +269,7 @@ Definition init (timeout : N) (progs : list prog) : st :=
   {| now := 0; tmo := 0; armed := None; tstopped := false; closed := false; err := None; msg := None; done := false;
      fwd := []; mu := None; reg := []; sent := false; tells := []; rets := []; routed := [];
      created := false; winners := []; attempts := []; final := None; assigned := false; wlog := []; fired := None;
-     closer_ran := false;
+     closer_ran := false; taken := false;
      thr := Start (ANew timeout) :: map (fun g => Start (first_pc g)) progs |}.
 
 (** schedules: a choice that cannot step (finished, blocked or non-existent thread) is skipped *)
